@@ -73,11 +73,16 @@ class Ctx:
         if len(cov['samples']) < 6:
             cov['samples'] += out.samples[:6 - len(cov['samples'])]
         seen = set()
+        cap = int(os.environ.get('VERIF_MAX_CONFIRM', '25'))
         for b in out.bad:
             key = b['case']['key']
             if (key, b['kind']) in seen:
                 continue
             seen.add((key, b['kind']))
+            if len(seen) > cap:
+                # enough confirmed violations from this batch; the remaining rejections are counted, not re-run
+                cov['rejections_not_reconfirmed'] = cov.get('rejections_not_reconfirmed', 0) + 1
+                continue
             self.confirm(b, kw)
         return out
 
